@@ -910,6 +910,12 @@ class Interp:
         if op in ('/', '%'):
             a2, b2, w, signed = self.usual(a, b)
             if b2.concrete() and b2.lo > 0 and a2.lo >= 0:
+                d = b2.lo
+                if d & (d - 1) == 0 and not a2.concrete():
+                    # non-negative dividend, power-of-two divisor: the same value as the mask / shift form, which keeps bit views
+                    if op == '%':
+                        return self.binop('&', a2, const(w, signed, d - 1), n)
+                    return self.binop('>>', a2, const(w, signed, d.bit_length() - 1), n)
                 if op == '/':
                     return IV(w, signed, a2.lo // b2.lo, a2.hi // b2.lo)
                 if a2.concrete():
@@ -1127,6 +1133,15 @@ class Interp:
                 return const(64, False, len(o[1]))
             if isinstance(o, tuple) and o and o[0] == 'str' and name == 'empty':
                 return const(1, False, int(len(o[1]) == 0))
+            if isinstance(o, tuple) and o and o[0] in ('str', 'cat', 'num') and name in ('push_back', 'append') and len(args) == 1:
+                lv = self.lval(obj, env)
+                self.store(lv, str_cat(o, self.expr(args[0], env)), env)
+                return None
+            if isinstance(o, tuple) and o and o[0] in ('str', 'cat', 'num') and name == 'assign' and len(args) == 2:
+                a, b = self.expr(args[0], env), self.expr(args[1], env)
+                if isinstance(a, IV) and a.concrete() and isinstance(b, IV) and b.concrete():
+                    self.store(self.lval(obj, env), ('str', chr(b.lo & 0xFF) * a.lo), env)     # assign(count, ch)
+                    return None
             if isinstance(o, tuple) and o and o[0] in ('str', 'cat', 'opaque', 'num') and name == 'clear':
                 self.store(self.lval(obj, env), ('str', ''), env)
                 return None
